@@ -326,8 +326,10 @@ class TreeGen:
             ("for", 5 if deep else 0), ("tablerow", 2 if deep else 0),
             ("cycle", 2 * sb if self.ex.in_for else 0.5 * sb), ("increment", 1.5 * sb), ("decrement", 1 * sb),
             ("ifchanged", 2 * sb if self.ex.in_for and deep else 0),
-            ("break", 1.5 if self.ex.in_for or self.ex.in_table else 0),
-            ("continue", 1.5 if self.ex.in_for or self.ex.in_table else 0), ("comment", 1), ("raw", 1), ("inline", 1), ("doc", 0.3),
+            # outside a loop too: an interrupt in a partial reaches (include) or must not reach (render) the
+            # caller's loop, at top level it is an error
+            ("break", 1.5 if self.ex.in_for or self.ex.in_table else 0.35),
+            ("continue", 1.5 if self.ex.in_for or self.ex.in_table else 0.35), ("comment", 1), ("raw", 1), ("inline", 1), ("doc", 0.3),
             ("tcomment", 1 if self.template_comments else 0), ("liquid", 2 if deep else 0),
             ("include", 3 if self.partials and self.allow_loaders and not self.no_include else 0),
             ("render", 3 if self.partials and self.allow_loaders else 0),
